@@ -145,6 +145,19 @@ def replay(recs):
             from ..moved import motions, warm
             for mname, mv, T, Ti in motions(3):
                 chk(f"Cuboid.area/measured-then-moved/{mname}", st, case, r["area"], lambda mv=mv: mv(warm(mk())).area, lambda v: close(v, r["area"]))
+            # measured, then stretched by diag(2, 3, 4) (not an isometry: a stale face list keeps the old area); the expected
+            # area is that of the parallelepiped spanned by the stretched edge vectors
+            Sd = np.array([2.0, 3.0, 4.0])
+            eu, ev, ew = [Sd * (np.array(r[k], dtype=float) - np.array(r["a"], dtype=float)) for k in ("b", "c", "d")]
+            sarea = 2 * float(np.linalg.norm(np.cross(eu, ev)) + np.linalg.norm(np.cross(eu, ew)) + np.linalg.norm(np.cross(ev, ew)))
+            stretch = lambda o: g.Transformation(np.diag([2, 3, 4, 1])) * o  # noqa: E731
+            chk("Cuboid.area/stretched", st, case, sarea, lambda: stretch(mk()).area, lambda v: close(v, sarea))
+            chk("Cuboid.area/measured-then-stretched", st, case, sarea, lambda: stretch(warm(mk())).area, lambda v: close(v, sarea))
+            chk("Polyhedron.faces.area(sum)/measured-then-stretched", st, case, sarea,
+                lambda: float(np.sum(stretch(warm(mk())).faces.area)), lambda v: close(v, sarea))
+            chk("Polyhedron.faces.vertices/measured-then-stretched", st, case, "the faces of the fresh image",
+                lambda: np.asarray(stretch(warm(mk())).faces.array, dtype=float).tolist(),
+                lambda v: np.allclose(np.asarray(v, dtype=float), np.asarray(stretch(mk()).faces.array, dtype=float)))
             chk("Cuboid.edges/vertices", st, case, {"edges": 12, "vertices": 8}, lambda: (len(mk().edges), len(mk().vertices)), lambda v: v == (12, 8))
             # the same solid with the three edge vertices in another order is the same polyhedron
             other = lambda: g.Cuboid(g.Point(*r["a"]), g.Point(*r["c"]), g.Point(*r["d"]), g.Point(*r["b"]))  # noqa: E731
